@@ -204,9 +204,18 @@ def ofExcept {T : Type} (r : Except String T) (k : T → Reply α) : Reply α :=
   | .ok v => k v
   | .error e => .thrown e
 
-@[specialize] def runManifOp (t : MT) (op : String) (x : Array α) : Reply α :=
+@[specialize] def runManifOp (t : MT) (op0 : String) (x : Array α) : Reply α :=
   let A : Man α (t.carrier α) := t.man
+  -- API-coverage unit (DESIGN 8.10): the public member functions of SubManifold / AnyManifold called directly, and
+  -- `Default<M>()` without argument, are by their source text the functions behind `smooth::rplus` … / `Default<M>(Dof)`
+  let op := if op0 == "man_dof_member" then "man_dof" else if op0 == "man_rplus_member" then "man_rplus"
+    else if op0 == "man_rminus_member" then "man_rminus" else if op0 == "man_default_static" then "man_default" else op0
   match op with
+  | "man_move" =>
+    -- move construction + move assignment: the value arrives unchanged
+    match t.decode x 0 with
+    | some (m, o) => if o = x.size then .words (t.encode m) else .bad "arity"
+    | none => .bad "decode"
   | "man_dof" =>
     match t.decode x 0 with
     | some (m, o) => if o = x.size then .words #[(nat (A.dof m) : α)] else .bad "arity"
